@@ -255,10 +255,12 @@ def mutate(case, kind, pick):
             i, nd = pick(cand)
             nd.pop("partition_by")
             return c
-        plain = of("extend", lambda nd: not nd.get("partition_by") and not nd.get("order_by"))
-        if not plain:
+        # anchor: a node that is NOT an extend (the builder merges consecutive plain extends, which would make the two
+        # members differ in more than the flag)
+        anchors = [j for j in spec.reachable(c) if c["nodes"][j]["op"] != "extend"]
+        if not anchors:
             return None
-        i, nd = pick(plain)
+        i = pick(anchors)
         free = [n for n in ("n", "c", "b", "k", "a") if n not in sch[i].cols]
         if not free:
             return None
